@@ -653,6 +653,12 @@ impl<'de> Deserializer<'de> {
         V: Visitor<'de>,
     {
         self.unroll_type()?;
+        // As in `deserialize_principal`: the subtype relation alone also admits the
+        // bottom type `empty`, which has no values to read.
+        check!(
+            matches!(self.wire_type.as_ref(), TypeInner::Service(_)),
+            "service"
+        );
         self.check_subtype()?;
         let mut bytes = vec![4u8];
         let id = PrincipalBytes::read(&mut self.input)?;
@@ -665,6 +671,10 @@ impl<'de> Deserializer<'de> {
         V: Visitor<'de>,
     {
         self.unroll_type()?;
+        check!(
+            matches!(self.wire_type.as_ref(), TypeInner::Func(_)),
+            "function"
+        );
         self.check_subtype()?;
         if !self.read_bool_val()? {
             return Err(Error::msg("Opaque reference not supported"));
